@@ -996,6 +996,11 @@ func c05Regions(o c05Opts, f *syntax.File) []string {
 	})
 	syntax.Walk(f, func(n syntax.Node) bool {
 		switch n := n.(type) {
+		case *syntax.TestClause:
+			if (o.single || o.minify) && anyHdoc {
+				// parser defect: a heredoc body is not read at the newline that follows `]]`
+				set("heredoc-then-test-clause")
+			}
 		case *syntax.Redirect:
 			if n.Op == syntax.DashHdoc && n.Hdoc != nil {
 				for _, c := range c05CommentsOf(reflect.ValueOf(n.Hdoc)) {
@@ -1136,7 +1141,7 @@ func c05TieSkip(o c05Opts, f *syntax.File, d *c05Dumper) string {
 		switch ex {
 		case "comment-ends-in-backslash", "formfeed-in-comment", "comment-after-bare-time-coproc",
 			"empty-case-comment-into-heredoc", "tab-in-dash-heredoc-comment", "tab-in-backquote-comment",
-			"single-for-name-comment":
+			"single-for-name-comment", "heredoc-then-test-clause":
 			return ex
 		}
 	}
